@@ -170,10 +170,12 @@ public:
     //! operator += to combine two Aggregate<>
     Aggregate& operator+=(const Aggregate& a) noexcept
     {
+        // combine_variance() needs the means of both operands: calculate it
+        // before mean_ is overwritten.
+        nvar_ = combine_variance(a);
         mean_ = combine_means(a);
         min_ = std::min(min_, a.min_);
         max_ = std::max(max_, a.max_);
-        nvar_ = combine_variance(a);
         count_ += a.count_;
         return *this;
     }
